@@ -6,7 +6,7 @@ last block xor K1 (complete) or the 10*-padded rest xor K2; C_{n-1} is the CBC c
 The class keeps `_last_ct` = chaining value after g_fed and `_last_pt` = (chaining value before the last block of g_fed) xor
 (that block), which is exactly what the complete-block rule needs when the cache is empty.
 Everything is instantiated per block size (8, 16): exhaustive in that parameter, unbounded in the data."""
-from vf.pyvc.contracts import Contract, ClassContract
+from vf.pyvc.contracts import Contract, ClassContract, lemma_contract
 from vf.pyvc.values import *       # noqa
 from .base import base_registry
 from . import aead1_natives as nat
@@ -79,10 +79,18 @@ def registry(bs=16, state=None, buf='bytes|memoryview'):
         d.update(INV)
         return d
     OPQ = ['spec.aead1.omac_k1', 'spec.aead1.omac_k2', 'spec.aead1.omac', 'spec.aead1.omac_max']
+    # spec-level lemmas about the exact block xor, proved once on plain variables (bit-vector reasoning), used as instances
+    # in proofs that keep `bx` uninterpreted
+    for nm in ('xor_ac', 'xor_zero'):
+        lemma_contract(reg, 'spec.aead1.lemma_%s%d' % (nm, bs), {'a': 'bytes', 'b': 'bytes', 'c': 'bytes'} if nm == 'xor_ac' else {'a': 'bytes'})
+    AC = 'spec.aead1.lemma_xor_ac%d' % bs
+    SPLIT = 'spec.aead1.lemma_omac_split%d' % bs
+    lemma_contract(reg, SPLIT, {'fid': 'int', 'key': 'bytes', 'blocks': 'bytes', 'rest': 'bytes', 'tlen': 'int'},
+                   opaque=['spec.aead1.omac_parts'])
 
     # ------------------------------------------------------------------ _update: whole blocks into the CBC object
     chain_inv = ['self._cbc.g_bs == ' + BS, 'len(%s) %% %s == 0' % (FED, BS), 'len(self._cbc.g_iv) == ' + BS, INV['inv_last_ct'], INV['inv_last_pt'],
-                 'len(self._last_ct) == ' + BS,
+                 'len(self._last_ct) == ' + BS, INV['inv_last_pt_len'],
                  'conj(self._cbc.g_fid == %s, self._cbc.g_key == %s)' % (FID, KEY)]
     reg.add(Contract(CM + '._update', params={'data_block': 'bytes|bytearray|memoryview'},
                      requires=chain_inv + ['len(data_block) % ' + BS + ' == 0'], raises={},
@@ -102,12 +110,13 @@ def registry(bs=16, state=None, buf='bytes|memoryview'):
         # stepping stones for the path "cache filled up, whole blocks chained, rest cached": the message splits at the fill
         # point f = bs - old(_cache_n) and at the start of the new rest
         lemmas={'exit': {
-            'split_fill': 'impl(old(self._cache_n > 0 and self._cache_n + len(msg) >= %s), '
-                          'bytes(msg) == bytes(msg)[:%s - old(self._cache_n)] + bytes(msg)[%s - old(self._cache_n):])' % (BS, BS, BS),
-            'split_rest': 'impl(old(self._cache_n > 0 and self._cache_n + len(msg) >= %s), bytes(msg)[%s - old(self._cache_n):] == '
-                          'bytes(msg)[%s - old(self._cache_n):len(msg) - self._cache_n] + bytes(msg)[len(msg) - self._cache_n:])' % (BS, BS, BS)}},
+            'split_fill': 'old(self._cache_n > 0 and self._cache_n + len(msg) >= %s) ==> '
+                          'bytes(msg) == bytes(msg)[:%s - old(self._cache_n)] + bytes(msg)[%s - old(self._cache_n):]' % (BS, BS, BS),
+            'split_rest': 'old(self._cache_n > 0 and self._cache_n + len(msg) >= %s) ==> bytes(msg)[%s - old(self._cache_n):] == '
+                          'bytes(msg)[%s - old(self._cache_n):len(msg) - self._cache_n] + bytes(msg)[len(msg) - self._cache_n:]' % (BS, BS, BS),
+            'split_tail': 'old(self._cache_n == 0) ==> bytes(msg) == bytes(msg)[:len(msg) - self._cache_n] + bytes(msg)[len(msg) - self._cache_n:]'}},
         modifies=['self._data_size', 'self._cache.*', 'self._cache_n', 'self._cbc.g_fed', 'self._last_ct', 'self._last_pt'],
-        unchanged_on_raise=['TypeError'], opaque=OPQ), {'self._cache': 'bytearray[%d]' % bs})
+        unchanged_on_raise=['TypeError'], opaque=OPQ + ['spec.aead1.bx']), {'self._cache': 'bytearray[%d]' % bs})
     # ------------------------------------------------------------------ digest / verify (C03)
     cached = '(self._mac_tag is not None and not self._update_after_digest)'
     TAGV = 'spec.aead1.omac(%s, %s, %s, %s, self.digest_size)' % (FID, KEY, M, BS)
@@ -115,10 +124,14 @@ def registry(bs=16, state=None, buf='bytes|memoryview'):
     reg.add(Contract(CM + '.digest', params={}, raises={'ValueError': ('iff', too_long)},
                      ensures=ens({'tag': 'result == %s' % TAGV, 'cached': 'self._mac_tag == result'}),
                      sets={'self._mac_tag': TAGV}, returns=TAGV,
-                     lemmas={'exit': {'head': '%s[:len(%s) - self._cache_n] == %s' % (M, M, FED),
-                                      'rest': '%s[len(%s) - self._cache_n:] == take(bytes(self._cache), self._cache_n)' % (M, M),
-                                      'residue': 'len(%s) %% %s == self._cache_n' % (M, BS)}},
-                     modifies=['self._mac_tag'], opaque=['spec.aead1.omac_k1', 'spec.aead1.omac_k2', 'spec.aead1.omac_max']))
+                     lemmas={'exit': {'parts': 'result == spec.aead1.omac_parts(%s, %s, %s, take(bytes(self._cache), self._cache_n), %s, self.digest_size)' % (FID, KEY, FED, BS)}},
+                     instances={'exit': [
+                         '%s(%s, %s, %s, take(bytes(self._cache), self._cache_n), self.digest_size)' % (SPLIT, FID, KEY, FED),
+                         # complete last block: ((C_{n-1} xor M_n*) xor K1) = C_{n-1} xor (K1 xor M_n*)
+                         '%s(%s, %s[len(%s) - %s:], self._k1)' % (AC, CH('%s[:len(%s) - %s]' % (FED, FED, BS)), FED, FED, BS),
+                         # padded last block: ((C_{n-1} xor P) xor K2) = C_{n-1} xor (K2 xor P),  P = rest || 1 0^j
+                         '%s(self._last_ct, take(bytes(self._cache), self._cache_n) + b"\\x80" + rep(b"\\x00", %s - self._cache_n - 1), self._k2)' % (AC, BS)]},
+                     modifies=['self._mac_tag'], opaque=['spec.aead1.omac', 'spec.aead1.omac_k1', 'spec.aead1.omac_k2', 'spec.aead1.omac_max', 'spec.aead1.bx']))
     reg.add(Contract(CM + '.verify', params={'mac_tag': buf.replace('bytes|memoryview', 'buffer')},
                      raises={'ValueError': ('iff', '(%s) or bytes(mac_tag) != %s' % (too_long, TAGV))},
                      ensures=ens({'cached': 'self._mac_tag == %s' % TAGV, 'none': 'result is None'}),
